@@ -238,7 +238,7 @@ type XGen struct {
 
 var xmlNames = []string{"a", "b", "c", "item", "k", "A", "Item", "a-b", "x_y", "list", "n1", "a.b"}
 var xmlAttrNames = []string{"id", "x", "a", "Type", "data-v", "k", "lang"}
-var xmlTexts = []string{"hello", "x<y", "R&D", "\"q\"", "it's", "]]>", "&amp;", "&#x41;", "a b", " pad ", "1", "3.5", "true", "<![CDATA[", "é", "日本", "&", "<", ">", "-5", "tRuE", "NaN", "1e3", "0x1F", "\ttab", "a&b<c>d\"e'f", "x]]", "&lt;tag&gt;", "00", "T", "f"}
+var xmlTexts = []string{"hello", "x<y", "R&D", "\"q\"", "it's", "]]>", "&amp;", "&#x41;", "a b", " pad ", "1", "3.5", "true", "<![CDATA[", "é", "日本", "&", "<", ">", "-5", "tRuE", "NaN", "1e3", "0x1F", "\ttab", "a&b<c>d\"e'f", "x]]", "&lt;tag&gt;", "00", "T", "f", "1e19", "18446744073709551616", "-3e25", "1000000", "1e6", "9007199254740993", "0.1", "1e-7"}
 
 func (r *Rng) xmlNode(g *XGen, depth int) *XNode {
 	n := &XNode{Kind: 'N', Name: r.Pick(g.Names)}
